@@ -189,3 +189,53 @@ func decodeDecoyThenRestore(r *rand.Rand, root *jsonschema.Schema) {
 		}
 	}
 }
+
+// shareSubschemas turns a Schema tree into a DAG: at one to three places a sub-schema OBJECT is used twice (two properties,
+// two allOf branches, then and else ...), as a program does that builds schemas from shared Go values
+// (addr := &Schema{...}; Properties{"billing": addr, "shipping": addr}). Such a value cannot be resolved (Resolve demands a
+// tree) but it can be marshaled and cloned. Returns the number of shared uses made.
+func shareSubschemas(r *rand.Rand, root *jsonschema.Schema) int {
+	var nodes []*jsonschema.Schema
+	forEachSchema(root, func(s *jsonschema.Schema) { nodes = append(nodes, s) })
+	made := 0
+	for k := 1 + r.IntN(3); k > 0; k-- {
+		n := nodes[r.IntN(len(nodes))]
+		switch r.IntN(4) {
+		case 0:
+			if len(n.Properties) >= 2 {
+				ks := sortedKeys(n.Properties)
+				i, j := r.IntN(len(ks)), r.IntN(len(ks))
+				if i != j && n.Properties[ks[i]] != nil {
+					n.Properties[ks[j]] = n.Properties[ks[i]]
+					made++
+				}
+			}
+		case 1:
+			if len(n.AllOf) >= 2 && n.AllOf[0] != nil {
+				n.AllOf[len(n.AllOf)-1] = n.AllOf[0]
+				made++
+			} else if len(n.AnyOf) >= 2 && n.AnyOf[0] != nil {
+				n.AnyOf[len(n.AnyOf)-1] = n.AnyOf[0]
+				made++
+			}
+		case 2:
+			if n.Then != nil {
+				n.Else = n.Then
+				made++
+			} else if n.Items != nil {
+				n.Contains = n.Items
+				made++
+			}
+		default:
+			// the same object at two DEPTHS: a property value also used as additionalProperties of the parent
+			if len(n.Properties) >= 1 {
+				ks := sortedKeys(n.Properties)
+				if p := n.Properties[ks[r.IntN(len(ks))]]; p != nil && p != n {
+					n.AdditionalProperties = p
+					made++
+				}
+			}
+		}
+	}
+	return made
+}
